@@ -94,11 +94,41 @@ def cross_kind(crng, kc):
     return [k for k in ('int', 'float', 'bool') if k != kc][int(crng.integers(0, 2))]
 
 
+NARROW = {'f': ['float32'], 'i': ['int32', 'int16', 'int8'], 'u': ['uint8']}
+
+
+def _tuples(x):
+    return tuple(_tuples(y) for y in x) if isinstance(x, list) else x
+
+
 def as_given(crng, v):
-    """Hand the value over as ndarray or as nested python list / python scalar."""
-    if crng.random() < 0.4:
+    """Hand the value over as ndarray, as nested python list / python scalar, as nested tuples, or as an ndarray of a
+    narrow dtype (float32 / int32 / int16 / int8; every generated integer fits int8).  One class draw per value."""
+    r = crng.random()
+    if r < 0.26:
+        return v.tolist()
+    if r < 0.33:
+        return _tuples(v.tolist())
+    if r < 0.40:
+        kinds = NARROW.get(np.asarray(v).dtype.kind)
+        if kinds:
+            return np.asarray(v).astype(kinds[int(r * 1e4) % len(kinds)])
         return v.tolist()
     return v
+
+
+def given_class(v):
+    """How a value is handed over (for the coverage counters)."""
+    if isinstance(v, tuple):
+        return 'tuple'
+    if isinstance(v, list):
+        return 'list'
+    if isinstance(v, np.ndarray) or isinstance(v, np.generic):
+        d = np.asarray(v).dtype
+        if d.kind in 'fiu' and d.itemsize < 8:
+            return 'narrow:' + d.name
+        return 'ndarray' if isinstance(v, np.ndarray) and v.ndim else 'scalar'
+    return 'scalar'
 
 
 def gen_index(crng, rng, natoms, cls):
@@ -558,3 +588,103 @@ def make_op(kind, crng, rng, pool):
         return op
 
     raise ValueError(kind)
+
+
+# ---------------------------------------------------------------------------
+# histories over DEFAULT-built objects (state that could leak between instances)
+# ---------------------------------------------------------------------------
+# how the stand-alone Atoms of a default history is built (what is left to the defaults of the constructor)
+ATOMS_PATHS = [
+    'Atoms()', 'Atoms(natoms=n)', 'Atoms(pos=one)', 'Atoms(pos=many)', 'Atoms(atype=scalar)', 'Atoms(atype=many)',
+    'Atoms(props-only)', 'Atoms(prop={props})', 'Atoms(model=default)', 'Atoms(natoms=n,safecopy)', 'Atoms(pos=int-list)',
+]
+# how the System of a default history is built
+SYSTEM_PATHS = [
+    'System()', 'System(atoms=Atoms())', 'System(atoms=Atoms(natoms=n))', 'System(box)', 'System(symbols,masses)',
+    'System(atoms=Atoms(pos=one))', 'System(atoms,safecopy)', 'System(pbc)', 'System(box,scale)',
+]
+DEFAULT_NATOMS = [1, 2, 1, 3, 5]          # natoms of the paths that take a count (1 = the boundary, every other case)
+
+# forced in-place edits of an object that still carries constructor defaults: (op kind, via / form, key, system only?)
+EDIT_FORMS = [
+    ('set', 'attr', 'pos', False), ('atype_set', 'attr', 'atype', False), ('prop_write', 'int', 'pos', False),
+    ('raw_write', 'int', 'pos', False), ('set', 'view', 'pos', False), ('atype_set', 'view', 'atype', False),
+    ('prop_write', 'negint', 'atype', False), ('assign', 'setitem', None, False), ('set', 'prop', 'pos', False),
+    ('atype_set', 'prop', 'atype', False), ('raw_write', 'all', 'atype', False), ('atoms_prop_set', 'none', 'pos', True),
+    ('prop_atype_k', 'existing', 'pos', False), ('assign', 'prop', None, False), ('prop_write', 'all', 'pos', False),
+    ('atoms_prop_set', 'int-scale', 'pos', True), ('assign', 'atoms_ix', None, True), ('prop_atype', 'existing', 'pos', False),
+    ('raw_write', 'negint', 'pos', False),
+]
+DEFAULT_FILL = ['set', 'atype_set', 'prop_write', 'assign', 'prop_atype_k', 'extend_int', 'extend_atoms', 'getitem', 'deepcopy',
+                'atoms_prop_set', 'atoms_extend', 'prop_get', 'prop_get_atoms', 'atoms_prop_get', 'df', 'symbols_set']
+
+
+def plan_defaults(i):
+    """Steps of default history i (function of i only): ('forced', form index) or an operation kind of ``make_op``."""
+    crng = np.random.default_rng([60607, i])
+    nf = len(EDIT_FORMS)
+    fill = [DEFAULT_FILL[int(j)] for j in crng.integers(0, len(DEFAULT_FILL), size=5)]
+    steps = [('forced', i % nf), fill[0], fill[1], ('forced', (i // nf + 7 * (i % nf) + 3) % nf), fill[2], 'extend_int',
+             ('forced', (2 * i + 5) % nf), fill[3], 'atoms_extend', fill[4]]
+    return steps, crng
+
+
+def forced_edit(form, j, crng, rng, pool):
+    """An operation that certainly rewrites, in place, an existing property of pool slot 0 or 1."""
+    kind, via, key, system_only = EDIT_FORMS[form]
+    slot = 0 if system_only else (j + form) % 2
+    typ, mod = pool[slot]
+    ma = mod.atoms if typ == 'system' else mod
+    n = ma.natoms
+    top = max(3, ma.natypes())
+    op = {'op': kind, 'slot': slot, 'forced': form}
+    if kind == 'set':
+        cls = ['existing-full', 'existing-len1'][(j + form) % 2]
+        val = gen_value(rng, 'float', (3,), n if cls == 'existing-full' else 1)
+        op.update(via=via, cls=cls, key=key, value=as_given(crng, val))
+    elif kind == 'atype_set':
+        cls = ['valid-full', 'valid-scalar', 'valid-len1', 'grow'][(j + form) % 4]
+        if cls == 'valid-scalar':
+            val = np.int64(rng.integers(2, top + 1))
+        elif cls == 'valid-len1':
+            val = rng.integers(2, top + 1, 1)
+        else:
+            val = gen_atype(rng, n, top)
+            val[int(rng.integers(0, n))] = 2 if cls == 'valid-full' else min(top + 1, 7)
+        op.update(via=via, cls=cls, key='atype', value=as_given(crng, np.asarray(val)))
+    elif kind in ('prop_write', 'raw_write'):
+        index = {'int': int(rng.integers(0, n)), 'negint': -int(rng.integers(1, n + 1)), 'all': slice(None)}[via]
+        single = via != 'all' or (j % 2 == 0)
+        if key == 'atype':
+            val = rng.integers(2, top + 2, () if single else (n,))
+        else:
+            val = gen_value(rng, 'float', (3,), None if single else n)
+        op.update(key=key, index=index, icls=via, vcls='single' if single else 'per-selected', value=as_given(crng, np.asarray(val)))
+    elif kind == 'assign':
+        if via == 'prop' and j % 2:
+            index, icls, k = None, 'none', n
+        else:
+            index, icls = gen_index(crng, rng, n, ['int', 'negint', 'all', 'slice'][(j + form) % 4])
+            k = count_selected(n, index)
+        names = [x for x in ma.keys if x not in ('atype', 'pos')]
+        spec = atoms_spec(rng, k, names, maxtype=top)
+        spec['atype'][0] = 2
+        op.update(via=via, index=index, icls=icls, ncls='k', scls='same', operand=spec)
+    elif kind == 'atoms_prop_set':
+        scale = via == 'int-scale'
+        if via == 'none':
+            index, icls, lead = None, 'none', [n, 1][j % 2]
+        else:
+            index, icls, lead = int(rng.integers(0, n)), 'int', None
+        val = gen_value(rng, 'float', (3,), lead)
+        if scale:
+            val = np.round(val / 10.0, 6)
+        op.update(key='pos', index=index, icls=icls, scale=scale, value=as_given(crng, val), lead=lead)
+    elif kind == 'prop_atype_k':
+        op.update(cls='existing', key='pos', value=as_given(crng, gen_value(rng, 'float', (3,))), atype=int(rng.integers(1, ma.natypes() + 1)))
+    elif kind == 'prop_atype':
+        nt = ma.natypes()
+        op.update(cls='existing', key='pos', value=as_given(crng, gen_value(rng, 'float', (3,), nt)), nvalues=nt)
+    else:
+        raise ValueError(kind)
+    return op
